@@ -93,6 +93,8 @@ func (e *Exec) rebuild(x *Term, a []*Term) *Term {
 		return ts.FPIsNaN(a[0])
 	case "fp.add", "fp.sub", "fp.mul", "fp.div":
 		return ts.FPArith(x.Op, a[0], a[1])
+	case "fp.abs", "fp.rti.RNA", "fp.rti.RTN", "fp.rti.RTP", "fp.rti.RTZ", "fp.rti.RNE":
+		return ts.FPUn(x.Op, a[0])
 	case "fp.to_fp":
 		return ts.FPFromFP(a[0], x.S.W)
 	case "fp.from_sbv":
